@@ -436,7 +436,11 @@ struct Hist
       if (S.dataEvents < 3 || inFlush) S.tr(inFlush ? "Dflush" : "D", s);
       nData++;
       if (inFlush) count("readmode_flush_data_events");
-      if (S.closes > 0 && inFlush)
+      // ordered by the entry stamps: a flush callback (application thread) that was entered before the close
+      // callback was entered is concurrent with the close, not after it, even if it gets the monitor lock later
+      const bool closedBefore = S.closes > 0 && S.closeSeq < s;
+      if (S.closes > 0 && !closedBefore) count("il_flush_data_cb_entered_before_close_cb");
+      if (closedBefore && inFlush)
       {
         // the user-data cleanup is the last step of the close fan-out: a call that started after it started after the close completed
         bool after = S.cleanupSeq && S.cleanupSeq < tFlush.startSeq;
@@ -448,7 +452,7 @@ struct Hist
                                          : "setReadMode(Async) called after the session's close had completed ran the Sync->Async flush and delivered buffered bytes through the data callback",
              &S, "\"bytes\":" + std::to_string(data.size()));
       }
-      else if (S.closes > 0) viol(K("data-after-close"), "data callback for an id after its close callback", &S, "\"bytes\":" + std::to_string(data.size()));
+      else if (closedBefore) viol(K("data-after-close"), "data callback for an id after its close callback", &S, "\"bytes\":" + std::to_string(data.size()));
       else if (S.ann == A_NONE) viol(K("data-before-announce"), "data callback for an id before its accept/connect callback", &S, "\"bytes\":" + std::to_string(data.size()));
       S.dataEvents++;
       if (!inFlush && !S.firstDataDone) { S.firstDataDone = true; first = true; plan = S.plan; }
